@@ -364,6 +364,8 @@ def correspond(ctx):
     kernels.merge_cross_check(out, 'C20', ['curvedistance_minDist@2x2', 'curvedistance_minDist@2x3', 'curvedistance_minDist@2x4', 'curvedistance_minDist@3x2',
         'curvedistance_minDist@3x3', 'curvedistance_minDist@3x4', 'curvedistance_minDist@4x2', 'curvedistance_minDist@4x3', 'curvedistance_minDist@4x4',
         'curvedistance_curveDistance_Line_Line', 'curvedistance_curveDistance_Quad_Cubic', 'curvedistance_curveDistance_Cubic_Cubic'], ctx.n(8, 100), rng)
+    # distanceToPath as regenerated from path/__init__.py (Gen/PathOps.v: sampling, first-smallest selection with the 0.0-means-unset quirk, UnboundLocalError as a value; Proofs/Bridge5.v)
+    kernels.merge_cross_check(out, 'C20', ['Path_distanceToPath'], ctx.n(20, 200), rng, label='regenerated-kernels-round5')
     return out
 
 
